@@ -93,6 +93,15 @@ impl Gen {
         };
         self.key_of(w, s, c)
     }
+    /// Probe = C04's sentence executed; the room is filled through one of the inserting APIs
+    fn probe_op(&mut self, s: usize) -> Value {
+        let via = if self.cfg.set {
+            *["insert", "insert", "get_or_insert"].choose(&mut self.rng).unwrap()
+        } else {
+            *["insert", "insert", "entry", "raw", "mixed"].choose(&mut self.rng).unwrap()
+        };
+        json!({"op":"Probe","s":s,"via":via})
+    }
     fn val(&mut self) -> u32 {
         if self.cfg.zst {
             0
@@ -372,7 +381,7 @@ impl Gen {
                 6 if two => json!({"op":"CloneFrom","s":d,"d":s}),
                 5 | 6 => json!({"op":"Clone","s":s,"d":d}),
                 7 => json!({"op":"Iter","s":s,"kind":"iter","extra":1}),
-                8 if !self.cfg.zst => json!({"op":"Probe","s":s}),
+                8 if !self.cfg.zst => self.probe_op(s),
                 9 => json!({"op":"Retain","s":s,"pred": self.pred(w, s)}),
                 10 => json!({"op":"DrainFilter","s":s,"pred": self.pred(w, s),"end":"exhaust"}),
                 _ => json!({"op":"Extend","s":s,"items":[[self.key_absent(w, s), self.val()]],"hint": n}),
@@ -380,7 +389,7 @@ impl Gen {
         }
         // C10: "n insertions without reallocation" after with_capacity(n) / reserve(n): fill the promised room
         if std::mem::replace(&mut self.promised, false) && !self.cfg.zst && st.main_cap - st.main_len < 300 && self.rng.gen_bool(0.25) {
-            return json!({"op":"Probe","s":s});
+            return self.probe_op(s);
         }
         // rayon / serde suites: "in any resize phase" -- start a resize now and then (a reserve beyond the
         // free room parks every element in the old table), so that the traversals below mostly see two tables
@@ -436,7 +445,7 @@ impl Gen {
         }
         // now and then: execute C04's sentence (fill the map up to its capacity with unseen keys)
         if !self.cfg.zst && len + 40 < self.cfg.nkeys as usize * 3 && self.rng.gen_bool(if split { 0.06 } else { 0.02 }) {
-            return json!({"op":"Probe","s":s});
+            return self.probe_op(s);
         }
         let r2 = self.rng.gen_range(0..100);
         match r2 {
